@@ -92,6 +92,46 @@ class Jobs:
         return self.res
 
 
+# ----------------------------------------------------------------------------- confirmation of unlisted failures
+
+def confirm(ev, prop, violations, make_task, scenario_fn, sig_fn, logdir, tries=2):
+    """A failure whose signature is not a listed finding is re-executed alone (the pool and the model
+    checker are idle by then) before it is reported: a hang bound that was exceeded only because 12
+    replays and TLC were competing for the CPU does not come back; a defect does.  The re-run is judged
+    by TLC like any other execution; the violation is kept iff one of `tries` re-runs is rejected again."""
+    from ..report import split
+    _, new = split(violations)
+    if not new:
+        return violations
+    keep = [v for v in violations if v not in new]
+    unconfirmed = []
+    seen_sig = {}
+    for v in new:
+        if v.signature in seen_sig:                 # same signature: same verdict, do not re-run every instance
+            if seen_sig[v.signature]:
+                keep.append(v)
+            continue
+        if len(seen_sig) >= 8:                      # a tree that fails in many different ways: no need to confirm them all
+            seen_sig[v.signature] = True
+            keep.append(v)
+            continue
+        again = False
+        for t in range(tries):
+            rec = R.pool_map(scenario_fn, [make_task(v.replay, 'confirm%d' % t)], logdir, nproc=1, task_timeout=300)[0]
+            fails, _ = tlc.judge('ServerJudge', [{k: rec[k] for k in ('id', 'prop', 'scn', 'obs')}], name='confirm')
+            if fails:
+                again = True
+                break
+        seen_sig[v.signature] = again
+        if again:
+            keep.append(v)
+        else:
+            unconfirmed.append({'signature': v.signature, 'what': v.what})
+            print('NOTE: property=%s a rejected execution did not reproduce in %d quiet re-runs (timing under load), not reported: %s' % (prop, tries, v.signature))
+    ev.cov['unconfirmed_rejections'] = unconfirmed
+    return keep
+
+
 # ----------------------------------------------------------------------------- recording
 
 def record(logdir):
@@ -342,6 +382,10 @@ def run_c11(tier, replay):
                     ('; server log: ' + x['notes']['server_error']) if x['notes'].get('server_error') else ''))
         violations.append(Violation('C11', sig, what, {'kind': 'C11', 'faults': x['faults_full']}))
 
+    violations = confirm(ev, 'C11', violations, lambda rp, i: dict(id=i, faults=rp['faults'], streams=streams, pos=pos, logdir=logdir),
+                         'scenario_c11', c11_signature, logdir)
+    unconf = set(u['signature'] for u in ev.cov.get('unconfirmed_rejections', []))
+
     # 5. conformance: the real outcome must be an outcome of the model for that scenario
     #    (of the proposed algorithm, or - where a known finding applies - of the algorithm as written)
     conf = collections.Counter()
@@ -355,6 +399,8 @@ def run_c11(tier, replay):
             conf['as-proposed'] += 1
         elif s in allowed['Fix_none'][key]:
             conf['as-written'] += 1
+        elif x['id'] in byid and c11_signature(x, byid[x['id']]) in unconf:
+            conf['unconfirmed-timing'] += 1
         else:
             conf['drift'] += 1
             if len(drift) < 4:
@@ -383,7 +429,8 @@ def run_c11(tier, replay):
     ev.assumptions += ['client writes are atomic up to the client\'s next read (TCP buffers them); payloads are opaque to the model',
                        'FIN = close() of a socket without unread data, RST = SO_LINGER 0 + close(); loopback only',
                        'time-outs in the proposed algorithm only fire for clients that are gone (a well-behaved client connects the control channel in time)',
-                       'sequences of >= 2 faulty clients are sampled (seeded), not exhaustive; model NF<=2 exhaustive (NF=3 core plans in the thorough tier)']
+                       'sequences of >= 2 faulty clients are sampled (seeded), not exhaustive; model NF<=2 exhaustive (NF=3 core plans in the thorough tier)',
+                       'a rejected execution whose signature is not a listed finding is re-run alone twice and reported only if TLC rejects a re-run too (hang bounds are wall-clock: 12 parallel replays + TLC can exceed them on a loaded machine)']
     return finish(ev, violations, T.s(), drift)
 
 
@@ -577,6 +624,10 @@ def run_c18(tier, replay):
                    x['obs']['rep'], x['model_rep'], x['obs']['live'], x['obs']['srv_alive'], [y['got'] for y in x['obs']['fresh']],
                    ('; server log: ' + x['notes']['server_error']) if x['notes'].get('server_error') else ''))
         violations.append(Violation('C18', sig, what, {'kind': 'C18', 'hist': x['scn']['hist']}))
+
+    violations = confirm(ev, 'C18', violations, lambda rp, i: dict(id=i, hist=rp['hist'], upayload=streams['uctxworker'][1],
+                                                                  upos=[p_ for p_ in pos['uctxworker'] if p_[0] == 1], logdir=logdir),
+                         'scenario_c18', c18_signature, logdir)
 
     # 4. conformance: replies, survivors and the number of helper processes as in the model's behaviour
     nconf = 0
@@ -830,6 +881,11 @@ def run_c12(tier, replay):
         violations.append(Violation('C12', sig, what, {'kind': 'C12', 'how': x['scn']['how'], 'racer': x['scn']['racer'],
                                                       'kids': [dict(state=kk['state'], persistent=kk['persistent'] == 'T') for kk in x['scn']['kids']]}))
 
+    violations = confirm(ev, 'C12', violations, lambda rp, i: dict(id=i, how=rp['how'], kids=rp['kids'], racer=rp.get('racer', 'none'),
+                                                                  streams=streams, pos=pos, logdir=logdir),
+                         'scenario_c12', c12_signature, logdir)
+    unconf12 = set(u['signature'] for u in ev.cov.get('unconfirmed_rejections', []))
+
     # 4. conformance
     conf = collections.Counter()
     for x in recs:
@@ -839,6 +895,8 @@ def run_c12(tier, replay):
             conf['as-proposed'] += 1
         elif s_ in allowed['FALSE'].get(key, ()):
             conf['as-written'] += 1
+        elif x['id'] in byid and c12_signature(x, byid[x['id']]) in unconf12:
+            conf['unconfirmed-timing'] += 1
         else:
             conf['drift'] += 1
             if len(drift) < 4:
